@@ -2,6 +2,7 @@
 CALL-SIBLING, TYPED-FALLBACK, EPILOGUE, TYPE-TOTAL, LIT-CANON, ASSIGN-CAPTURED."""
 from lib import astmodel as am
 from lib import synq as q
+from lib.inline import walk_inl as W
 from lib.core import rule
 from rules.pipe import binop_tables, assign_tables, actions
 
@@ -127,9 +128,10 @@ def ctx_barrier(ctx, r):
             r.missing(f"generate_constraints_stmt:{v}", TC)
             continue
         loops += 1
-        pushes = [x for x in q.walk(a["body"]) if x["k"] == "MethodCall" and x["m"] == "push" and q.show(x["recv"]).endswith(".loop_stack") and q.show(x["args"][0]).startswith("Some(")]
-        pops = [x for x in q.walk(a["body"]) if x["k"] == "MethodCall" and x["m"] == "pop" and q.show(x["recv"]).endswith(".loop_stack")]
-        r.ob(len(pushes) == 1 and len(pops) == 1 and pushes[0]["l"] < pops[0]["l"], f"typecheck.rs:generate_constraints_stmt:{v}:loop-stack", TC, a["l"], f"{v} must push its id on loop_stack before its body and pop it after")
+        seq = list(W(a["body"]))  # also looks inside helpers the arm delegates to
+        pushes = [i for i, x in enumerate(seq) if x["k"] == "MethodCall" and x["m"] == "push" and q.show(x["recv"]).endswith(".loop_stack") and q.show(x["args"][0]).startswith("Some(")]
+        pops = [i for i, x in enumerate(seq) if x["k"] == "MethodCall" and x["m"] == "pop" and q.show(x["recv"]).endswith(".loop_stack")]
+        r.ob(len(pushes) == 1 and len(pops) == 1 and pushes[0] < pops[0], f"typecheck.rs:generate_constraints_stmt:{v}:loop-stack", TC, a["l"], f"{v} must push its id on loop_stack before its body and pop it after")
     r.count("function-boundary constructs", n, 2, TC)
 
 
@@ -396,9 +398,10 @@ def call_sibling(ctx, r):
                 if not any(x["k"] == "MethodCall" and x["m"] == "translate_func_call" for x in q.walk(a["body"])):
                     continue
                 n += 1
-                uses = any(x["k"] == "Field" and x["f"] == "function_call_arg_order" for x in q.walk(a["body"]))
-                # the reordered list must actually be what is translated
-                loops = [x for x in q.walk(a["body"]) if x["k"] == "For" and "reordered" in q.show(x["e"])]
+                uses = any(x["k"] == "Field" and x["f"] == "function_call_arg_order" for x in W(a["body"]))
+                # the reordered list must actually be what is translated (possibly inside a helper the arm delegates to)
+                tables = {b for x in W(a["body"]) for (pat, init) in ([(x["pat"], x["init"])] if x["k"] == "Local" and x.get("init") is not None else ([(x["pat"], x["e"])] if x["k"] == "Let" else [])) if any(y["k"] == "Field" and y["f"] == "function_call_arg_order" for y in q.walk(init)) for b in q.pat_bindings(pat)}
+                loops = [x for x in W(a["body"]) if x["k"] == "For" and (q.idents_in(x["e"]) & tables) and any(y["k"] == "MethodCall" and y["m"] == "translate_expr" for y in q.walk(x["body"]))]
                 r.ob(uses and bool(loops), f"translate_bytecode.rs:translate_expr:FuncCall:{'|'.join(vs)}:arguments-not-reordered", TB, a["l"],
                      f"callee form {'|'.join(vs)} calls a declared function but pushes its arguments in source order, ignoring function_call_arg_order: named and default arguments are wrong for this form",
                      sample=f"FuncCall {'|'.join(vs)}: arguments taken from function_call_arg_order")
@@ -460,6 +463,7 @@ def _key_base(k):
 def call_key(ctx, r):
     n_lookup = 0
     n_insert = 0
+    handed = []
     for file in (TB, TC):
         items = ctx.file_items(file)
         if items is None:
@@ -503,7 +507,28 @@ def call_key(ctx, r):
                     r.ob(kb in params, f"{where}:{what}:key-is-not-the-call-expression", file, x["l"],
                          f"{f['name']}: reorder-table key `{q.show(keyexpr)}` is neither the matched call expression nor a node handed down by the caller",
                          sample=f"{f['name']}: {what} keyed by parameter `{kb}`")
-    r.count("reorder-table lookups", n_lookup, 8, TB)
+                    if kb in params and not is_writer:
+                        handed.append((file, f["name"], params.index(kb)))
+    # a helper that reads the table under a parameter: every call arm that delegates to it hands over the matched call expression
+    for file, hname, idx in handed:
+        items = ctx.file_items(file)
+        for g, _ in q.iter_items(items):
+            if g["k"] != "Fn" or g.get("body") is None:
+                continue
+            for m in q.walk(g["body"]):
+                if m["k"] != "Match":
+                    continue
+                base = _scrutinee_base(m)
+                for a in m["arms"]:
+                    if "FuncCall" not in [q.last_seg(h) for h in q.pat_heads(a["pat"])] or not base:
+                        continue
+                    for c in q.walk(a["body"]):
+                        if c["k"] == "MethodCall" and c["m"] == hname and len(c["args"]) > idx:
+                            got = q.show(c["args"][idx]).lstrip("&").replace(".clone()", "")
+                            r.ob(got == base, f"{file.split('/')[-1]}:{g['name']}:{hname}:call-expression-not-handed-over", file, c["l"],
+                                 f"{g['name']}: `{hname}` reads the reorder table under its parameter #{idx}; this call passes `{got}`, not the call expression `{base}`",
+                                 sample=f"{g['name']}: {hname}({base}, ..)")
+    r.count("reorder-table lookups", n_lookup, 5, TB)
     r.count("reorder-table writers", n_insert, 3, TC)
 
 
@@ -726,8 +751,29 @@ def epilogue(ctx, r):
     else:
         kinds = {v["name"] for v in fk["variants"]}
 
+        # boolean locals that stand for a set of kinds: `let is_task = matches!(desc.kind, FuncKind::TaskBlock { .. })`
+        flags = {}
+        for l in q.walk(tb["body"]):
+            if l["k"] == "Local" and l.get("init") is not None and l["init"]["k"] == "Macro" and l["init"].get("name") == "matches" and "kind" in q.show(l["init"]) and l["init"].get("pat") is not None:
+                hs = {q.last_seg(h) for h in q.pat_heads(l["init"]["pat"])}
+                for b in q.pat_bindings(l["pat"]):
+                    flags[b] = hs & kinds
+
+        def cond_kinds(c):
+            """Kinds for which a condition over kind flags holds, or None if it is not such a condition."""
+            while c["k"] == "Paren":
+                c = c["e"]
+            if c["k"] == "Path" and c["p"] in flags:
+                return set(flags[c["p"]])
+            if c["k"] == "Unary" and c.get("op") in ("!", "Not"):
+                inner = cond_kinds(c["e"])
+                return None if inner is None else kinds - inner
+            if c["k"] == "Macro" and c.get("name") == "matches" and "kind" in q.show(c) and c.get("pat") is not None:
+                return {q.last_seg(h) for h in q.pat_heads(c["pat"])} & kinds
+            return None
+
         def kinds_of(node):
-            """FuncKind variants under which `node` executes (all, unless inside arms of a match on the kind)."""
+            """FuncKind variants under which `node` executes (all, unless inside arms of a match on the kind or an `if` on a kind flag)."""
             ks = set(kinds)
             for m in q.walk(tb["body"]):
                 if m["k"] == "Match" and "kind" in q.show(m["e"]):
@@ -735,6 +781,14 @@ def epilogue(ctx, r):
                         if any(y is node for y in q.walk(a["body"])):
                             hs = {q.last_seg(h) for h in q.pat_heads(a["pat"])}
                             ks &= (kinds if "_" in hs else hs & kinds)
+                elif m["k"] == "If":
+                    ck = cond_kinds(m["c"])
+                    if ck is None:
+                        continue
+                    if any(y is node for y in q.walk(m["t"])):
+                        ks &= ck
+                    elif m.get("e") is not None and any(y is node for y in q.walk(m["e"])):
+                        ks &= kinds - ck
             return ks
 
         pushing, stop_k, ret_k = set(), set(), set()
